@@ -182,13 +182,19 @@ def run_shard(spec):
     res = Result()
     rng = core.rng_for("C05", spec["tier"], spec["seed"], spec["shard"])
     cases = [gen_case(rng) for _ in range(spec["cases"])]
+    if spec["shard"] == 0:
+        # the recorded finding (terminate-did-not-return:via-master-stopped) is exercised in every run, with a shorter
+        # harness deadline than the 45 s + bound used for generated cases: it is known to hang
+        cases[0] = {"gateways": [{"spec": "popen", "id": "g0", "execmodel": "thread", "activity": "stopped"},
+                                 {"spec": "via", "id": "g1", "execmodel": "thread", "activity": "idle", "master": "g0"}],
+                    "action": "terminate", "timeout": 0.1, "has_via": True, "pre_exit": [], "deadline": 25}
     out: list = []
     sem = threading.Semaphore(spec["conc"])
 
     def guarded(c):
         with sem:
             try:
-                run_initiator(c, out)
+                run_initiator(c, out, total_timeout=c.get("deadline"))
             except BaseException as e:  # noqa
                 out.append({"case": c, "harness_error": repr(e)})
 
